@@ -101,6 +101,7 @@ struct AnyEngine
         return -1;
     }
     void kill(int s) { delete img[s]; img[s] = nullptr; mod[s] = Model(); }
+    void delete_leak(int s) { img[s] = nullptr; mod[s] = Model(); } // object in an invalid state: never touched again
 
     void check_all()
     {
@@ -282,7 +283,14 @@ struct AnyEngine
         if (threw)
         {
             ++out.ops_threw;
-            // "the target still holds a valid image": re-adopt (type and dims read back), contents unspecified
+            // "the target still holds a valid image": it holds one of its alternatives ...
+            for (int q : {thr_t, thr_s})
+                if (q >= 0 && img[q] && img[q]->index() >= 3)
+                {
+                    viol("model:invalid-after-throw", "any_image holds no alternative (index " + std::to_string((long)img[q]->index()) + ") after an operation that threw");
+                    delete_leak(q);
+                }
+            // ... re-adopt (type and dims read back), contents unspecified
             if (thr_t >= 0 && img[thr_t]) normalise(mod[thr_t], *img[thr_t], 0xFA1u + (uint64_t)idx);
             if (thr_s >= 0 && thr_s != thr_t && img[thr_s]) normalise(mod[thr_s], *img[thr_s], 0xFA2u + (uint64_t)idx);
         }
